@@ -289,3 +289,78 @@ def try_eval(repo: Repo, mod: Module, node: ast.AST, env=None, symbolic=False):
         return True, Evaluator(repo, mod, symbolic).eval(node, env)
     except Unknown:
         return False, None
+
+
+def module_tables(repo: Repo, mod: Module) -> dict[str, dict]:
+    """Sequentially interpret the module-level statements that build dict tables:
+    `NAME = {literal}` / `NAME = OTHER` (alias) / `for v in range(..): NAME[v] = expr` /
+    `NAME.update(expr)`.  Anything else touching a table name is Unknown."""
+    ev = Evaluator(repo, mod, symbolic_names=True)
+    tables: dict[str, dict] = {}
+
+    def value(node, env):
+        if isinstance(node, ast.Name) and node.id in tables:
+            return tables[node.id]
+        return ev.eval(node, {**tables, **env})
+
+    for st in mod.tree.body:
+        tgt, val = None, None
+        if isinstance(st, ast.Assign) and len(st.targets) == 1 and isinstance(st.targets[0], ast.Name):
+            tgt, val = st.targets[0].id, st.value
+        elif isinstance(st, ast.AnnAssign) and isinstance(st.target, ast.Name) and st.value is not None:
+            tgt, val = st.target.id, st.value
+        if tgt is not None:
+            if isinstance(val, ast.Dict) or (isinstance(val, ast.Name) and val.id in tables):
+                try:
+                    tables[tgt] = value(val, {})
+                except Unknown as exc:
+                    raise AnalysisError(f"{mod.name}.{tgt}: {exc}")
+            continue
+        if isinstance(st, ast.For) and isinstance(st.target, ast.Name):
+            touched = [
+                s
+                for s in st.body
+                if isinstance(s, ast.Assign)
+                and isinstance(s.targets[0], ast.Subscript)
+                and isinstance(s.targets[0].value, ast.Name)
+                and s.targets[0].value.id in tables
+            ]
+            if not touched:
+                continue
+            if len(touched) != len(st.body):
+                raise AnalysisError(f"{mod.name}:{st.lineno}: table-filling loop has other statements")
+            try:
+                it = ev.eval(st.iter, dict(tables))
+                for item in it:
+                    env = {st.target.id: item}
+                    for s in touched:
+                        sub = s.targets[0]
+                        tables[sub.value.id][value(sub.slice, env)] = value(s.value, env)
+            except Unknown as exc:
+                raise AnalysisError(f"{mod.name}:{st.lineno}: {exc}")
+            continue
+        if (
+            isinstance(st, ast.Expr)
+            and isinstance(st.value, ast.Call)
+            and isinstance(st.value.func, ast.Attribute)
+            and isinstance(st.value.func.value, ast.Name)
+            and st.value.func.value.id in tables
+        ):
+            name, meth = st.value.func.value.id, st.value.func.attr
+            if meth != "update" or len(st.value.args) != 1:
+                raise AnalysisError(f"{mod.name}:{st.lineno}: unmodelled table operation .{meth}")
+            try:
+                upd = value(st.value.args[0], {})
+            except Unknown as exc:
+                raise AnalysisError(f"{mod.name}:{st.lineno}: {exc}")
+            if not isinstance(upd, dict):
+                raise AnalysisError(f"{mod.name}:{st.lineno}: update with non-dict")
+            tables[name].update(upd)
+            continue
+        # any other statement that mentions a table name as a store target is not modelled
+        for n in ast.walk(st):
+            if isinstance(n, (ast.Subscript, ast.Attribute)) and isinstance(getattr(n, "ctx", None), (ast.Store, ast.Del)):
+                b = n.value
+                if isinstance(b, ast.Name) and b.id in tables and not isinstance(st, (ast.FunctionDef, ast.ClassDef)):
+                    raise AnalysisError(f"{mod.name}:{st.lineno}: unmodelled write to table {b.id}")
+    return tables
